@@ -17,11 +17,17 @@ mvars == <<doc0, cur, hist, phase>>
 \* partition of the documents over several TLC runs (Part in 0..Parts-1), by a cheap hash
 InPart(v) == Parts = 1 \/ (Size(v) + (IF v.t = "obj" THEN Len(v.m) ELSE 0) * 3 + (IF v.t = "arr" THEN 1 ELSE 0)) % Parts = Part
 
+\* array roots for CreateMergePatch: several object elements whose member sets differ (each pair is diffed on its own)
+DiffArrs == { Arr(<<Obj(<<Mem(ca, x)>>), Obj(<<Mem(cb, SX)>>)>>) : x \in {N1, N10} }
+       \cup { Arr(<<Obj(<<Mem(ca, x), Mem(cb, SX)>>), Obj(<<>>)>>) : x \in {N1, N10} }
+       \cup { Arr(<<Obj(<<>>), Obj(<<Mem(ca, N1)>>)>>), Arr(<<Obj(<<Mem(ca, N1)>>), Obj(<<Mem(ca, N1)>>), Obj(<<Mem(cc, SX)>>)>>),
+              Arr(<<Obj(<<Mem(ca, N10)>>), Obj(<<Mem(ca, N1)>>), Obj(<<Mem(cc, SX)>>)>>) }
+
 MInit ==
   /\ phase = "start" /\ hist = <<>>
   /\ IF Mode = "merge"
      THEN doc0 \in { d \in U(DocLevel) : d.t # "null" /\ InPart(d) } /\ cur = doc0
-     ELSE doc0 \in { d \in U(DocLevel) : InPart(d) } /\ cur = doc0
+     ELSE doc0 \in { d \in U(DocLevel) \cup DiffArrs : InPart(d) } /\ cur = doc0
 
 MNext ==
   /\ Len(hist) < MaxOps
@@ -29,7 +35,7 @@ MNext ==
      THEN \E p \in U(PatchLevel) :
             /\ cur.t # "null"                        \* a null document is outside C02's domain
             /\ hist' = Append(hist, p) /\ cur' = MP(cur, p) /\ phase' = "merged"
-     ELSE \E b \in U(PatchLevel) :
+     ELSE \E b \in U(PatchLevel) \cup (IF doc0 \in DiffArrs THEN DiffArrs ELSE {}) :
             /\ hist' = Append(hist, b)
             /\ LET k == CreateKind(doc0, b) IN
                /\ phase' = k
